@@ -1,4 +1,4 @@
-import Qfproto.Frame
+import QF.Core.Frame
 /-! Prototype: mirror of expression.go (newExpr decoding, temp columns, execute) and QFrame.Eval. -/
 namespace Fr
 
